@@ -348,7 +348,7 @@ KINDS_READS = ["snp", "snp", "snp", "ins", "del", "mnp"]
 
 @st.composite
 def db_specs(draw, kinds=KINDS_READS, max_sites=10, max_alleles=9, sv=True, pseudo=None, dual_opposite=None, gaps=True,
-             chrs=("7",), stress=False, small=False, name="GA"):
+             chrs=("7",), stress=False, small=False, name="GA", force_sv=False):
     n_ex = draw(st.integers(2, 3 if small else 4))
     elen = st.sampled_from([30, 45, 60, 90] if small else [30, 60, 90, 120, 150])
     ilen = st.integers(40, 90) if small else st.integers(40, 220)
@@ -396,11 +396,11 @@ def db_specs(draw, kinds=KINDS_READS, max_sites=10, max_alleles=9, sv=True, pseu
     alls = draw(st.lists(plain, min_size=1, max_size=max_alleles))
     if sv:
         svs = []
-        if draw(st.booleans()):
+        if force_sv or draw(st.booleans()):
             svs.append({"sites": [], "sv": "del"})
         if spec["pseudo"]:
             for kind in ("left", "right"):
-                k = draw(st.integers(0, 2 if stress else 1))
+                k = draw(st.integers(1 if force_sv and kind == "left" else 0, 2 if stress else 1))
                 for _ in range(k):
                     svs.append({"sites": draw(st.lists(st.integers(0, ns - 1), max_size=2)) if draw(st.booleans()) else [],
                                 "sv": [kind, draw(st.integers(0, 8))]})
